@@ -313,6 +313,10 @@ def run_case(case: dict) -> Result:
     bad5 = _release_then_auto(root, text, classes)
     if bad5:
         return _done(res.bad(*bad5), classes)
+    # (6) a list replaced as a whole by its own deep copy (the only form whole-field assignment accepts) is still a list with interleaving comments
+    bad6 = _copy_field_then_claim(root, text, classes)
+    if bad6:
+        return _done(res.bad(*bad6), classes)
     # program of attribution calls: uniqueness after every call
     for op in case.get('ops', []):
         try:
@@ -344,6 +348,42 @@ def run_case(case: dict) -> Result:
             elif omap(cp) != omap(root):
                 res.bad('copy-attribution-differs', f'a deep copy attributes comments differently: {_mdiff(omap(root), omap(cp))} in {text!r}')
     return _done(res, classes)
+
+
+def _copy_field_then_claim(root: Any, text: str, classes: set) -> Optional[tuple]:
+    import copy
+    targets = [(cn, mi, p.name) for cn, ms in OPS.index_models(root).items() for mi, m in enumerate(ms) for p in S.props_of(m) if p.kind == 'clist']
+    for cn, mi, pname in targets:
+        ms = OPS.index_models(root).get(cn, [])    # re-resolved: replacing an outer list replaces the models inside it by their copies
+        if mi >= len(ms):
+            continue
+        m = ms[mi]
+        for p in [S.prop(m, pname)]:
+            if True:
+                if not any(isinstance(x, BlockComment) for x in getattr(m, p.name)):
+                    continue
+                key = f'{type(m).__name__}.{p.name}'
+                try:
+                    setattr(m, p.name, copy.deepcopy(getattr(m, p.name)))
+                except Exception as e:  # noqa: BLE001
+                    return (f'field-copy-raised:{key}:{type(e).__name__}', f'{key} = deepcopy({key}) raised {e!r} in {text!r}')
+                classes.add('stage:field-copy')
+                if O.print_text(root) != text:
+                    return (f'field-copy-changed-text:{key}', f'{key} = deepcopy({key}) changed the text of {text!r} to {O.print_text(root)!r}')
+                bad = check_unique(root, True, f'after {key} = deepcopy({key})')
+                if bad:
+                    return ('unique:' + bad[0] + ':field-copy', bad[1])
+                w = getattr(m, p.name)
+                try:
+                    un = w.unclaim_interleaving_comments()
+                    w.claim_interleaving_comments(un)
+                    root.auto_claim_comments()
+                except Exception as e:  # noqa: BLE001
+                    return (f'field-copy-claim-raised:{key}:{type(e).__name__}', f'after {key} = deepcopy({key}), unclaim / claim of its interleaving comments raised {e!r} in {text!r}')
+                bad = check_unique(root, True, f'after {key} = deepcopy({key}) and unclaim + claim of its comments')
+                if bad:
+                    return ('unique:' + bad[0] + ':field-copy-claim', bad[1])
+    return None
 
 
 def _release_then_auto(root: Any, text: str, classes: set) -> Optional[tuple]:
